@@ -252,7 +252,25 @@ func run(sc scenario, choose vs.Chooser, traceOn bool) (*trace, *vs.Sched) {
 			}
 			p := sc.Plans[ti]
 			full := false
-			if p.Kind == "reject-then-hang" {
+			if p.Kind == "reject-then-ok" || p.Kind == "reject-then-fail" {
+				// the first call is answered, after D, by an ECH rejection that carries retry configs; the ONE retry every attempt
+				// is entitled to then succeeds / fails at once
+				nth := 0
+				for _, o := range tr.attempts {
+					if o.target == ti {
+						nth++
+					}
+				}
+				a.retry = nth > 1
+				if nth == 1 {
+					if full = vs.SleepCtx(ctx, time.Duration(p.D)*unit); full {
+						a.end, a.finished, a.result = vs.Elapsed(), true, "rejected"
+						return nil, &tls.ECHRejectionError{RetryConfigList: []byte{0, 1, 2}}
+					}
+				} else {
+					full = ctx.Err() == nil
+				}
+			} else if p.Kind == "reject-then-hang" {
 				// the first call is answered, after D, by an ECH rejection that carries retry configs; the retried call hangs
 				nth := 0
 				for _, o := range tr.attempts {
@@ -292,7 +310,7 @@ func run(sc scenario, choose vs.Chooser, traceOn bool) (*trace, *vs.Sched) {
 				a.result = "cancelled"
 				return nil, ctx.Err()
 			}
-			if p.Kind == "ok" || p.Kind == "ok-slow-to-abort" || p.Kind == "ok-ignoring-deadline" || p.Kind == "slow-resolve" || p.Kind == "same-address-as-previous" {
+			if p.Kind == "ok" || p.Kind == "ok-slow-to-abort" || p.Kind == "ok-ignoring-deadline" || p.Kind == "slow-resolve" || p.Kind == "same-address-as-previous" || p.Kind == "reject-then-ok" {
 				a.result = "ok"
 				a.conn = &fakeConn{id: ti}
 				return a.conn, nil
@@ -538,6 +556,9 @@ func monitor(sc scenario, tr *trace, s *vs.Sched) (key, what string) {
 				if p.Kind == "slow-resolve" {
 					return "error-despite-success", fmt.Sprintf("Dial failed with %v although target %d resolves (slowly) and then accepts", tr.retErr, i)
 				}
+				if p.Kind == "reject-then-ok" && p.D < sc.Timeout {
+					return "error-despite-success", fmt.Sprintf("Dial failed with %v although target %d accepts on the retry its ECH rejection (with retry configs) entitles it to", tr.retErr, i)
+				}
 				if (p.Kind == "ok" || p.Kind == "ok-slow-to-abort" || p.Kind == "ok-ignoring-deadline") && p.D < sc.Timeout {
 					_ = i
 					return "error-despite-success", fmt.Sprintf("Dial failed with %v although target %d succeeds", tr.retErr, i)
@@ -662,6 +683,9 @@ func scenarios(thorough bool) []scenario {
 		{{"hang", 0}},
 		{{"fail", 0}},
 		{{"ok", 1}, {"hang", 0}},
+		{{"reject-then-fail", 1}, {"reject-then-ok", 1}},
+		{{"reject-then-ok", 1}, {"reject-then-ok", 1}},
+		{{"reject-then-fail", 1}, {"fail", 0}, {"reject-then-ok", 1}},
 		{{"fail-wrapping-canceled", 1}},
 		{{"fail-wrapping-canceled", 0}, {"fail", 1}},
 		{{"fail", 0}, {"fail-wrapping-canceled", 1}, {"hang", 0}},
